@@ -49,8 +49,9 @@ impl<T: TypeConfig> VerifEmbeddedRead<T> {
         sm: std::sync::Arc<T::SM>,
         lease: std::sync::Arc<d_engine_core::ReadLease>,
         cmd_tx: tokio::sync::mpsc::Sender<d_engine_core::ClientCmd>,
+        allow_client_override: bool,
     ) -> Self {
-        Self(crate::api::EmbeddedReadHandle::new(sm, lease, cmd_tx))
+        Self(crate::api::EmbeddedReadHandle::new(sm, lease, cmd_tx).with_client_override(allow_client_override))
     }
     pub async fn get_batch(
         &self,
@@ -74,10 +75,15 @@ impl VerifStandaloneRead {
         sm: std::sync::Arc<SM>,
         lease: std::sync::Arc<d_engine_core::ReadLease>,
         cmd_tx: tokio::sync::mpsc::Sender<d_engine_core::ClientCmd>,
+        allow_client_override: bool,
     ) -> Self {
         let (read_tx, read_rx) = tokio::sync::mpsc::channel(64);
         let actor = tokio::spawn(crate::read_actor::run_read_actor(read_rx, lease, sm, 64));
-        Self { handle: crate::api::StandaloneReadHandle::new(Some(read_tx), cmd_tx), actor }
+        Self {
+            handle: crate::api::StandaloneReadHandle::new(Some(read_tx), cmd_tx)
+                .with_client_override(allow_client_override),
+            actor,
+        }
     }
     pub async fn get_batch(
         &self,
